@@ -16,7 +16,7 @@ TRUSTED = P.TRUSTED[:3] + [
 
 
 def sessions_for(exe, tier, seed):
-    n_long, n_short = (220, 140) if tier == "quick" else (4000, 3000)
+    n_long, n_short = (170, 140) if tier == "quick" else (4000, 3000)
     base = seed * 1000003
 
     def long_fn(live, rng):
@@ -25,7 +25,7 @@ def sessions_for(exe, tier, seed):
             # finish the transfer on a loss-free suffix so that end-of-stream is actually reached
             todo = {"l": rng.choice([0, 0, 3000, 70000]), "r": rng.choice([0, 0, 3000])}
             P.c09_heal(S, rng, todo, {"l": len(S.sent["l"]) + todo["l"], "r": len(S.sent["r"]) + todo["r"]},
-                       random_close=rng.random() < 0.2)
+                       random_close=rng.random() < 0.2, max_ops=5000)
         return S
 
     def short_fn(live, rng):
@@ -72,7 +72,7 @@ def run(tier, seed):
                         ofail.append(rec)
             sessions = [S.ops for S in allS if not S.live.dead]
             if st["proof"] or os.path.exists(vlib.model_exe()):
-                diverged, total = vlib.diff_sessions(exe, sessions)
+                diverged, total = P.retrying(lambda: vlib.diff_sessions(exe, sessions))
             nontrivial = set()
             eos = 0
             for S in allS:
